@@ -43,6 +43,10 @@ RECURSIVE KeyFrom(_, _)
 KeyFrom(i, o) == IF i > Len(Batch.options) THEN ""
                  ELSE (IF Batch.options[i] \in o THEN Batch.options[i] \o "+" ELSE "") \o KeyFrom(i + 1, o)
 Fresh(p, o) == Batch.programs[p].fresh[KeyFrom(1, o)]
+\* whether normalization of p completes under the options o (measured in a fresh process): the class flag is written
+\* at the very end of normalize_program, a refused program leaves it as it was (harmless: every analysis that
+\* computes moments has passed that point)
+Normalizes(p, o) == Batch.programs[p].normalizes[KeyFrom(1, o)]
 UserGen(p) == {<<Batch.programs[p].userGen[i].p, Batch.programs[p].userGen[i].k>> :
                   i \in 1..Len(Batch.programs[p].userGen)}
 
@@ -66,7 +70,7 @@ Analyze(p) ==
     IN  /\ counter' = start + Len(fr)
         /\ handed' = handed + Len(fr) + (start - counter)
         /\ collided' = col
-        /\ flag' = ("exact" \in opt)
+        /\ flag' = IF Normalizes(p, opt) THEN ("exact" \in opt) ELSE flag
         /\ hist' = Append(hist, [a |-> "analyze", p |-> Batch.programs[p].id, counter |-> start + Len(fr),
                                  collided |-> col])
         /\ UNCHANGED opt
@@ -77,7 +81,7 @@ Next == /\ Len(hist) < MaxLen
 Spec == Init /\ [][Next]_vars
 
 CounterOK == counter = handed
-FlagFollows == [][\A p \in Progs : Analyze(p) => flag' = ("exact" \in opt)]_vars
+FlagFollows == [][\A p \in Progs : (Analyze(p) /\ Normalizes(p, opt)) => flag' = ("exact" \in opt)]_vars
 NoCollision == ~collided
 
 \* emit every maximal history (constraint evaluated on every state)
